@@ -703,10 +703,10 @@ static void c13_checker_history(int cc, const int *ops, int n, const char *desc)
 
 /* ---- builder histories ---- */
 enum { BO_SETKEY_GOOD, BO_SETKEY_WEAK512, BO_SETKEY_NONE, BO_SETKEY_PUBLIC, BO_SETCB_FAIL, BO_SETCB_MUT, BO_SETCB_NULL, BO_GENERATE, BO_CLEAR, BO_CLOCK,
-       BO_CLAIM_SUB, BO_CLAIM_DEL, BO_SETKEY_ES, BO_SETCB_SOMETIMES_KEY, BO_SETCB_CTX, NBO };
+       BO_CLAIM_SUB, BO_CLAIM_DEL, BO_SETKEY_ES, BO_SETCB_SOMETIMES_KEY, BO_SETCB_CTX, BO_IAT_OFF, NBO };
 static const char *bo_name[NBO] = { "setkey(HS256,oct32)", "setkey(HS512,oct32)", "setkey(none,NULL)", "setkey(ES256,public)!", "setcb(failing)", "setcb(mutating)",
 				    "setcb(NULL)", "generate", "error_clear", "clock+200", "claim_set(sub)", "claim_del(sub)", "setkey(EdDSA,ed25519)", "setcb(selects key only at even clock steps)",
-				    "setcb(selects key through its context, then overwrites config->ctx)" };
+				    "setcb(selects key through its context, then overwrites config->ctx)", "enable_iat(0)" };
 static jwk_set_t *ed_set;
 
 static int fail_cb(jwt_t *jwt, jwt_config_t *cfg) { (void)jwt; (void)cfg; return 1; }
@@ -746,6 +746,7 @@ static int bctx_cb(jwt_t *jwt, jwt_config_t *cfg)
 typedef struct {
 	int key;  /* 0 none, 1 HS256 good, 2 HS512 weak, 3 EdDSA */
 	int cb;   /* 0 none, 1 failing, 2 mutating, 3 sometimes selects a key, 4 context-overwriting */
+	int noiat;
 	int sub;
 } bmodel_t;
 
@@ -763,6 +764,8 @@ static void bmodel_apply(jwt_builder_t *b, const bmodel_t *m)
 		jwt_set_SET_STR(&v, "sub", "s");
 		jwt_builder_claim_set(b, &v);
 	}
+	if (m->noiat)
+		jwt_builder_enable_iat(b, 0);
 }
 
 static long c13_gens, c13_gen_ok, c13_histories;
@@ -770,7 +773,7 @@ static long c13_gens, c13_gen_ok, c13_histories;
 static void c13_builder_history(const int *ops, int n, const char *desc)
 {
 	jwt_builder_t *b = jwt_builder_new();
-	bmodel_t m = { 0, 0, 0 };
+	bmodel_t m = { 0, 0, 0, 0 };
 	time_t clock = T0;
 	jwt_value_t v;
 	for (int i = 0; i < n; i++) {
@@ -788,6 +791,7 @@ static void c13_builder_history(const int *ops, int n, const char *desc)
 		case BO_SETCB_NULL: if (!jwt_builder_setcb(b, NULL, NULL)) m.cb = 0; break;
 		case BO_SETCB_SOMETIMES_KEY: if (!jwt_builder_setcb(b, sometimes_key_cb, NULL)) m.cb = 3; break;
 		case BO_SETCB_CTX: if (!jwt_builder_setcb(b, bctx_cb, ring)) m.cb = 4; break;
+		case BO_IAT_OFF: jwt_builder_enable_iat(b, 0); m.noiat = 1; break;   /* returns the previous setting */
 		case BO_CLEAR: jwt_builder_error_clear(b); break;
 		case BO_CLOCK: clock += 200; break;
 		case BO_CLAIM_SUB:
